@@ -399,6 +399,20 @@ structure IPUserExt where
   isAutomationUser : Str → Bool × Option Err
   revocation : Bool × Bool × Option Err
 
+/-! ### cmd/keymasterd `getUsernameIfKeymasterSigned` -/
+
+/-- externals over a verified chain `χ` (leaf first) and public keys `κ`: whether the chain has fewer than two
+certificates, the leaf's common name, key and not-before, the key of the certificate that signed the leaf, whether
+the leaf carries the IP-restriction extension, and `getKeyFingerprint` -/
+structure KmSignedExt (χ κ : Type) where
+  short : χ → Bool
+  commonName : χ → Str
+  issuerKey : χ → κ
+  leafKey : χ → κ
+  notBefore : χ → Nat
+  isIPRestricted : χ → Bool
+  fingerprint : κ → Str × Option Err
+
 /-! ### cmd/keymasterd `consumeLoginChallenge` -/
 
 /-- `localUserData`: the pending challenge of a user; the two challenge pointers are compared by identity (numbers
